@@ -9,7 +9,7 @@ class's tracked attributes (those assigned in __init__: a value, a dict, a set),
 parameters and its locals.  Translated: assignments, `self.a = e`, `self.a[k] = v`,
 dict `.get(k[, d])` / `[k]` / `.pop(k[, d])` / `.popitem()` / `.clear()`, set `.add/.remove/
 .discard/.pop()/.clear()`, `k in self.a`, truth value of a container, tuple `+ (x,)`,
-`list()/tuple()`, local `list.remove(x)`, `== != is / is not / not`, f-string topic keys
+`list()` / `tuple()` (a list and a tuple are DIFFERENT values), local `list.remove(x)`, `== != is / is not / not`, f-string topic keys
 (`f'prompt_info_{n}'`), dataclass constructors (keywords, defaults taken from types.py, fields in
 definition order) and `dataclasses.replace`, `await context.pubsub.publish(k, v)` /
 `.end(k)`, `if / while / try-except / return / assert` (asserts that mention self),
@@ -19,12 +19,25 @@ hook implementations; plain or @staticmethod) are INLINED at their calls `self._
 `async with self._lock:` is its body (locks ignored); NewType
 wrappers (`PromptNo(-1)`) are the identity.
 
-NOT TRACKED (dropped): docstrings, `pass`, logger calls, asserts that do not mention self,
-the dataclass fields IGNORED_FIELDS (time stamps; script/result/exception of RunInfo -- the model
-Registrars/Model.v does not have them) together with the expressions given for them, and
-statements that mention neither self nor context (other than context.run_arg) nor await/return/
-raise and only bind local names -- those names become POISONED: any later use of one in a
-tracked position raises.
+NOT TRANSLATED.  Dropped silently: docstrings, `pass`, `self._logger.<level>(...)` calls whose arguments
+contain no call / walrus / await / yield.  PINNED AS TEXT (Gen: `untranslated`, compared in
+Registrars/Tie.v with the text the tie was written for, so any edit of them breaks an obligation):
+asserts that do not mention self (asserts that do are translated as a raising branch); the values given
+for the dataclass fields IGNORED_FIELDS (time stamps; script/result/exception of RunInfo -- the model
+Registrars/Model.v does not have them; they must not mention self / await / walrus); statements that
+mention neither self nor context (other than context.run_arg) nor pubsub / hook nor
+await/return/raise/yield, that store only into local names and call nothing rooted at a tracked
+name -- the names they bind become POISONED: any later use of one in a tracked position raises.
+
+REFUSED (fail closed): base classes / metaclass / class decorators, class-level statements other than
+docstrings and methods (class-level defaults), decorators other than @hookimpl (hooks) / @staticmethod
+(helpers), default / keyword-only / star arguments, special methods other than __init__, methods that
+are neither hook implementations nor helpers called by one, synchronous hook implementations,
+module-level statements other than import / class (and anything but import / __all__ in
+registrars/__init__.py), registrar classes that are not registered; in monitor.py anything but
+`ahook = context.hook.ahook` followed by `match event:` with unguarded class cases whose body is the
+open-prompt bookkeeping + one `await ahook.<hook>(context=context, event=event)` and a default case that
+only logs.
 
 Everything else raises Unsupported (= a broken tie obligation of ./check C11)."""
 from __future__ import annotations
@@ -123,6 +136,8 @@ class _Fn:
         self.where = where
         self.helpers = helpers or {}
         self.depth = 0
+        self.pins: list[str] = []            # text of what is NOT translated (pinned in Registrars/Tie.v)
+        self.used_helpers: set[str] = set()
         self.attrs = attrs
         self.dcs = dcs
         self.newtypes = newtypes
@@ -216,12 +231,15 @@ class _Fn:
             if isinstance(f, ast.Name) and f.id in self.newtypes and len(n.args) == 1 and not n.keywords:
                 return self.ex(n.args[0])
             if isinstance(f, ast.Name) and f.id in ('list', 'tuple') and len(n.args) == 1 and not n.keywords:
-                return f'ESeqCopy ({self.ex(n.args[0])})'
+                c = 'EListOf' if f.id == 'list' else 'ETupleOf'
+                a = n.args[0]
+                return f'{c} ({self.filt(a) if isinstance(a, ast.GeneratorExp) else self.ex(a)})'
             if isinstance(f, ast.Name) and f.id in self.dcs:
                 return self.new(n)
             if isinstance(f, ast.Name) and f.id == 'len' and len(n.args) == 1 and not n.keywords:
                 return f'ELen ({self.ex(n.args[0])})'
             if _is_self_attr(f) and f.attr in self.helpers:
+                self.used_helpers.add(f.attr)
                 body = self.inline(n, self.helpers[f.attr])
                 if len(body) == 1 and isinstance(body[0], ast.Return) and body[0].value is not None:
                     self.depth += 1
@@ -233,6 +251,7 @@ class _Fn:
             if ast.unparse(f) in ('dataclasses.replace', 'replace') and len(n.args) == 1:
                 if any(k.arg is None for k in n.keywords):
                     self.fail(n, '** in replace')
+                self.pin_ignored_fields('replace', n.keywords)
                 fs = [f'({_s(k.arg)}, {self.ex(k.value)})' for k in n.keywords if k.arg not in IGNORED_FIELDS]
                 return f'EReplace ({self.ex(n.args[0])}) {_l(fs)}'
             if isinstance(f, ast.Attribute) and f.attr == 'get' and self.attr_kind(f.value) == 'dict' \
@@ -257,22 +276,8 @@ class _Fn:
                 t = f'EIn ({self.ex(a)}) {_s(b.attr)}'
                 return t if isinstance(op, ast.In) else f'ENot ({t})'
             self.fail(n, 'comparison')
-        if isinstance(n, (ast.GeneratorExp, ast.ListComp)):
-            if len(n.generators) == 1:
-                g = n.generators[0]
-                if not g.is_async and isinstance(g.target, ast.Name) and len(g.ifs) == 1 \
-                        and isinstance(n.elt, ast.Name) and n.elt.id == g.target.id:
-                    x = g.target.id
-                    if x in self.params or x in self.locals or x in self.poisoned:
-                        self.fail(n, 'comprehension variable shadows a name')
-                    src = self.ex(g.iter)
-                    self.locals.add(x)
-                    try:
-                        c = self.cond(g.ifs[0])
-                    finally:
-                        self.locals.discard(x)
-                    return f'EFilter {_s(x)} ({src}) ({c})'
-            self.fail(n, 'comprehension that is not `x for x in <seq> if <cond>`')
+        if isinstance(n, ast.ListComp):
+            return self.filt(n)
         if isinstance(n, ast.JoinedStr):
             vs = n.values
             if len(vs) == 2 and isinstance(vs[0], ast.Constant) and isinstance(vs[0].value, str) \
@@ -290,6 +295,7 @@ class _Fn:
         for g in given:
             if g not in names:
                 self.fail(n, f'{cls} has no field {g}')
+        self.pin_ignored_fields(cls, n.keywords)
         out = []
         for f, default in self.dcs[cls]:
             if f in IGNORED_FIELDS:
@@ -347,6 +353,24 @@ class _Fn:
                 return n
         return [ast.fix_missing_locations(T().visit(b)) for b in body]
 
+    def filt(self, n) -> str:
+        """[x for x in s if c]  /  the generator (x for x in s if c) directly inside tuple() / list()"""
+        if len(n.generators) == 1:
+            g = n.generators[0]
+            if not g.is_async and isinstance(g.target, ast.Name) and len(g.ifs) == 1 \
+                    and isinstance(n.elt, ast.Name) and n.elt.id == g.target.id:
+                x = g.target.id
+                if x in self.params or x in self.locals or x in self.poisoned:
+                    self.fail(n, 'comprehension variable shadows a name')
+                src = self.ex(g.iter)
+                self.locals.add(x)
+                try:
+                    c = self.cond(g.ifs[0])
+                finally:
+                    self.locals.discard(x)
+                return f'EFilter {_s(x)} ({src}) ({c})'
+        self.fail(n, 'comprehension that is not `x for x in <seq> if <cond>`')
+
     def cond(self, n) -> str:
         k = self.attr_kind(n) if _is_self_attr(n) else None
         if k in ('dict', 'set'):
@@ -372,10 +396,33 @@ class _Fn:
             self.list_locals.discard(x)
 
     def skip_or_fail(self, st, err):
+        """a statement that is not translated: only if it cannot touch anything tracked; its text is
+        PINNED (Gen: untranslated; Registrars/Tie.v compares it with the text the tie was made for)
+        and the names it binds are poisoned"""
         if self.untracked(st):
             self.poison(st)
+            self.pins.append(ast.unparse(st))
             return []
         raise err
+
+    def pin_ignored_fields(self, what: str, keywords):
+        for k in sorted((k for k in keywords if k.arg in IGNORED_FIELDS), key=lambda k: k.arg):
+            for n in ast.walk(k.value):
+                if isinstance(n, (ast.NamedExpr, ast.Await, ast.Yield, ast.YieldFrom, ast.Lambda)) or \
+                        (isinstance(n, ast.Name) and n.id == 'self'):
+                    self.fail(k.value, 'value of an untracked field')
+            self.pins.append(f'{what}: {k.arg}={ast.unparse(k.value)}')
+
+    def logger_call_ok(self, v) -> bool:
+        """logger.<level>(...) whose arguments contain no call / walrus / await / yield"""
+        if not (isinstance(v, ast.Call) and isinstance(v.func, ast.Attribute)
+                and v.func.attr in ('debug', 'info', 'warning', 'error', 'exception', 'critical')):
+            return False
+        for a in list(v.args) + [k.value for k in v.keywords]:
+            for n in ast.walk(a):
+                if isinstance(n, (ast.Call, ast.NamedExpr, ast.Await, ast.Yield, ast.YieldFrom, ast.Lambda)):
+                    return False
+        return True
 
     def effect_call(self, v):
         """v = self.<a>.<m>(args): (attr, kind, method, args) or None"""
@@ -394,6 +441,7 @@ class _Fn:
             hc = v.value if isinstance(v, ast.Await) else v
             if isinstance(hc, ast.Call) and _is_self_attr(hc.func) and hc.func.attr in self.helpers:
                 h = self.helpers[hc.func.attr]
+                self.used_helpers.add(hc.func.attr)
                 if isinstance(h, ast.AsyncFunctionDef) != isinstance(v, ast.Await):
                     self.fail(st, 'await / async mismatch of a helper call')
                 body = self.inline(hc, h)
@@ -420,6 +468,8 @@ class _Fn:
             if ec is not None:
                 a, k, m, args = ec
                 if k == 'logger':
+                    if not self.logger_call_ok(v):
+                        self.fail(st, 'logger call with a call / walrus / await in its arguments')
                     return []
                 if m == 'clear' and k in ('dict', 'set') and not args:
                     return [f'SClear {_s(a)}']
@@ -466,8 +516,16 @@ class _Fn:
                 self.fail(st, 'return of a value')
             return ['SReturn']
         if isinstance(st, ast.Assert):
-            if any(isinstance(n, ast.Name) and n.id == 'self' for n in ast.walk(st.test)):
+            # never dropped: translated as a raising branch when it mentions self, otherwise its text is pinned
+            # (an assert about the context / the time stamps of an event: assumed to hold, see Tie.v)
+            if any(isinstance(n, ast.Name) and n.id == 'self' for n in ast.walk(st)):
+                if st.msg is not None:
+                    self.fail(st, 'assert with a message')
                 return [f'SAssert ({self.cond(st.test)})']
+            for n in ast.walk(st):
+                if isinstance(n, (ast.Call, ast.NamedExpr, ast.Await, ast.Yield, ast.YieldFrom, ast.Lambda)):
+                    self.fail(st, 'assert with a call / walrus / await')
+            self.pins.append(ast.unparse(st))
             return []
         if isinstance(st, ast.AsyncWith):
             if len(st.items) == 1 and st.items[0].optional_vars is None and _is_self_attr(st.items[0].context_expr) \
@@ -532,6 +590,9 @@ class _Fn:
 def _class(cls: ast.ClassDef, fname: str, dcs, newtypes):
     """-> (attrs: [(name, kind)], hooks: [(name, params, body text)])"""
     where = f'{fname}:{cls.name}'
+    if cls.bases or cls.keywords or cls.decorator_list:
+        raise Unsupported(f'{where}: base classes / metaclass / class decorators (inherited hook implementations '
+                          f'and attributes would not be seen): {ast.unparse(cls).splitlines()[0]}')
     attrs: dict = {}
     methods = []
     for b in cls.body:
@@ -573,6 +634,13 @@ def _class(cls: ast.ClassDef, fname: str, dcs, newtypes):
                         if k != 'lock':
                             raise Unsupported(f'{where}:{n.lineno}: attribute {t.attr} is not initialised in __init__')
                         attrs[t.attr] = 'lock'
+    seen = set()
+    for m in methods:
+        if m.name in seen:
+            raise Unsupported(f'{where}:{m.lineno}: method {m.name} defined twice')
+        seen.add(m.name)
+        if m.name.startswith('__') and m.name.endswith('__') and m.name != '__init__':
+            raise Unsupported(f'{where}:{m.lineno}: special method {m.name} is not translated')
     helpers = {}
     for m in methods:
         if m.name == '__init__' or any(_is_hookimpl(d) for d in m.decorator_list):
@@ -581,6 +649,7 @@ def _class(cls: ast.ClassDef, fname: str, dcs, newtypes):
             raise Unsupported(f'{where}:{m.lineno}: decorators of the helper method {m.name}')
         helpers[m.name] = m
     hooks = []
+    used_helpers: set = set()
     for m in methods:
         if m.name == '__init__':
             continue
@@ -600,7 +669,11 @@ def _class(cls: ast.ClassDef, fname: str, dcs, newtypes):
         params = [x for x in names[1:] if x != 'context']
         fn = _Fn(f'{where}.{m.name}', attrs, dcs, newtypes, params, helpers)
         body = fn.block(m.body, 2)
-        hooks.append((m.name, params, body))
+        hooks.append((m.name, params, body, fn.pins))
+        used_helpers |= fn.used_helpers
+    unused = sorted(set(helpers) - used_helpers)
+    if unused:
+        raise Unsupported(f'{where}: methods that are neither hook implementations nor helpers called by one: {unused}')
     # only the attributes some hook implementation mentions are part of the state
     used = set()
     for m in methods:
@@ -609,6 +682,41 @@ def _class(cls: ast.ClassDef, fname: str, dcs, newtypes):
     kinds = {'val': 'KVal', 'dict': 'KDict', 'set': 'KSet'}
     alist = [(a, kinds[k]) for a, k in attrs.items() if k in kinds and a in used]
     return alist, hooks
+
+
+def _monitor_strict(path: Path) -> None:
+    """OnEvent: no bases, one method; on_event_in_process is exactly `ahook = context.hook.ahook` followed by the
+    `match event:` (hook_order._dispatch checks the cases); the default case only logs"""
+    tree = ast.parse(path.read_text())
+    for n in tree.body:
+        if isinstance(n, (ast.Import, ast.ImportFrom)) or (isinstance(n, ast.Expr) and isinstance(n.value, ast.Constant)):
+            continue
+        if isinstance(n, ast.ClassDef) and n.name == 'OnEvent':
+            if n.bases or n.keywords or n.decorator_list:
+                raise Unsupported('monitor.py: OnEvent has bases / decorators')
+            body = [b for b in n.body if not (isinstance(b, ast.Expr) and isinstance(b.value, ast.Constant))]
+            if len(body) != 1 or not isinstance(body[0], ast.AsyncFunctionDef) or body[0].name != 'on_event_in_process':
+                raise Unsupported('monitor.py: OnEvent has members other than on_event_in_process')
+            fn = body[0]
+            if [ast.unparse(d) for d in fn.decorator_list] != ['hookimpl'] or [a.arg for a in fn.args.args] != ['self', 'context', 'event'] \
+                    or fn.args.defaults or fn.args.vararg or fn.args.kwarg or fn.args.kwonlyargs:
+                raise Unsupported('monitor.py: decorators / signature of on_event_in_process')
+            sts = [b for b in fn.body if not (isinstance(b, ast.Expr) and isinstance(b.value, ast.Constant))]
+            if len(sts) != 2 or ast.unparse(sts[0]) != 'ahook = context.hook.ahook' or not isinstance(sts[1], ast.Match) \
+                    or ast.unparse(sts[1].subject) != 'event':
+                raise Unsupported('monitor.py: on_event_in_process is not `ahook = context.hook.ahook; match event: ...`')
+            for case in sts[1].cases:
+                if isinstance(case.pattern, ast.MatchAs) and case.pattern.pattern is None:
+                    if case.guard is not None or case.pattern.name is not None:
+                        raise Unsupported('monitor.py: default case')
+                    for b in case.body:
+                        u = ast.unparse(b)
+                        if u != 'logger = getLogger(__name__)' and not u.startswith('logger.warning('):
+                            raise Unsupported(f'monitor.py:{b.lineno}: default case does more than log: {u[:80]}')
+                        if u.startswith('logger.warning(') and any(isinstance(x, (ast.Call, ast.NamedExpr, ast.Await)) for a in b.value.args for x in ast.walk(a)):
+                            raise Unsupported(f'monitor.py:{b.lineno}: call in the arguments of the log call')
+            continue
+        raise Unsupported(f'monitor.py:{n.lineno}: module-level statement: {ast.unparse(n)[:80]}')
 
 
 def translate(repo: Path) -> str:
@@ -625,13 +733,26 @@ def translate(repo: Path) -> str:
                 if n.name in classes:
                     raise Unsupported(f'class {n.name} defined twice')
                 classes[n.name] = _class(n, p.name, dcs, newtypes)
-            elif isinstance(n, (ast.FunctionDef, ast.AsyncFunctionDef)):
-                raise Unsupported(f'{p.name}:{n.lineno}: module-level function {n.name}')
+            elif isinstance(n, (ast.Import, ast.ImportFrom)):
+                continue
+            elif isinstance(n, ast.Expr) and isinstance(n.value, ast.Constant) and isinstance(n.value.value, str):
+                continue
+            else:
+                raise Unsupported(f'{p.name}:{n.lineno}: module-level statement other than import / class: {ast.unparse(n)[:80]}')
+    # registrars/__init__.py: imports and __all__ only (no re-binding / patching of a translated class)
+    for n in ast.parse((base / 'registrars' / '__init__.py').read_text()).body:
+        ok = isinstance(n, (ast.Import, ast.ImportFrom)) or \
+            (isinstance(n, ast.Expr) and isinstance(n.value, ast.Constant) and isinstance(n.value.value, str)) or \
+            (isinstance(n, ast.Assign) and len(n.targets) == 1 and isinstance(n.targets[0], ast.Name) and n.targets[0].id == '__all__'
+             and isinstance(n.value, (ast.List, ast.Tuple)) and all(isinstance(e, ast.Constant) for e in n.value.elts))
+        if not ok:
+            raise Unsupported(f'registrars/__init__.py:{n.lineno}: statement other than import / __all__: {ast.unparse(n)[:80]}')
     unregistered = [c for c in classes if c not in order]
     if unregistered:
         raise Unsupported(f'registrar classes that are not registered: {unregistered}')
+    _monitor_strict(base / 'session' / 'monitor.py')
     disp = _dispatch(base / 'session' / 'monitor.py')
-    used_dcs = sorted(c for c in dcs if any(f'ENew {_s(c)} ' in body for _, hs in classes.values() for _, _, body in hs))
+    used_dcs = sorted(c for c in dcs if any(f'ENew {_s(c)} ' in body for _, hs in classes.values() for _, _, body, _ in hs))
 
     out = ['(** GENERATED by translate/registrars_funs.py from nextline/plugin/plugins/registrars/*.py,',
            '    nextline/types.py and plugins/session/monitor.py -- do not edit.',
@@ -639,12 +760,15 @@ def translate(repo: Path) -> str:
            '    obligations against Registrars/Model.v: Registrars/Tie.v. *)',
            'From NL Require Import Registrars.Syntax.', 'Open Scope string_scope.', '']
     regs = []
+    allpins = []
     for c in order:
         if c not in classes:
             continue
         alist, hooks = classes[c]
         hnames = []
-        for name, params, body in hooks:
+        for name, params, body, pins in hooks:
+            if pins:
+                allpins.append((f'{c}.{name}', pins))
             d = f'{c}__{name}'
             hnames.append(d)
             out.append(f'Definition {d} : hookimpl :=\n  mkHook {_s(name)} {_l(_s(p) for p in params)}\n  ({body}).\n')
@@ -655,6 +779,11 @@ def translate(repo: Path) -> str:
     out.append('(** tracked fields (definition order) of the dataclasses of nextline/types.py that the registrars build *)')
     out.append('Definition dataclass_fields : list (string * list string) :=\n  ' +
                _l(f'({_s(c)}, {_l(_s(f) for f, _ in dcs[c] if f not in IGNORED_FIELDS)})' for c in used_dcs).replace('); (', ');\n   (') + '.\n')
+    out.append('(** NOT TRANSLATED: the text of every statement / assert / value of an untracked field that the')
+    out.append('    translator left out of the bodies above (none of them mentions self, pubsub, await; the names')
+    out.append('    they bind are never used in a translated position).  Pinned in Registrars/Tie.v. *)')
+    out.append('Definition untranslated : list (string * list string) :=\n  ' +
+               _l(f'({_s(h)}, {_l(_s(" ".join(x.split())) for x in pins)})' for h, pins in allpins).replace('); (', ');\n   (') + '.\n')
     out.append('(** OnEvent.on_event_in_process: event class -> hook *)')
     out.append('Definition funs_dispatch : list (string * string) :=\n  ' +
                _l(f'({_s(a)}, {_s(b)})' for a, b in disp).replace('); (', ');\n   (') + '.\n')
